@@ -164,8 +164,13 @@ func main() {
 	dump := flag.Bool("dump", false, "keep all query files")
 	timeout := flag.Int("timeout", 0, "per-obligation timeout in seconds")
 	showLoops := flag.String("loops", "", "print loop ordinals of functions whose name contains this, then exit")
+	cacheDir := flag.String("cache", "", "directory caching unsat answers by query text hash")
 	flag.Parse()
 	t0 := time.Now()
+	if *cacheDir != "" {
+		_ = os.MkdirAll(*cacheDir, 0o755)
+		proofCacheDir = *cacheDir
+	}
 	if *out == "" {
 		d, _ := os.MkdirTemp("", "gvc-")
 		*out = d
